@@ -1,1 +1,823 @@
-fn main(){}
+//! C14 — shared-pointer topology survives the round trip through anchors and aliases.
+//!
+//! Oracle (reference model + invariants on the emitted event stream):
+//! an abstract graph spec is built into concrete derived structs whose fields are
+//! `RcAnchor`/`ArcAnchor`/`RcWeakAnchor`/`ArcWeakAnchor` or the recursive wrappers
+//! (`fam.rs`), serialised with `to_string_with_options`, and read back with
+//! `from_str_with_options`. Both graphs are labelled canonically by a DFS in field
+//! order (`fam::Canon`): the label strings are equal iff value tree, partition of
+//! pointer positions by `ptr_eq` and weak -> class-or-dangling map are equal. The
+//! emitted text is run through the raw parser: the number of anchor definitions
+//! must equal the number of allocations, every other live reference must be an
+//! alias, and the definition/alias sequence must be the canonical reference
+//! sequence. The same text read into the mirror type with plain `Box` fields must
+//! equal the alias-free expansion of the spec. One metamorphic relation on top:
+//! the same text without the anchors that no alias refers to (confirmed by the raw
+//! parser to be the same event stream minus those anchors) must give the same graph.
+//!
+//! Workloads: the fixed payload-kind x context list (`payload.rs`), the exhaustive
+//! space of small graphs (`spec::exhaustive_spec`), seeded random graphs of <= 40
+//! nodes with the sharing probability swept 0..1 (`spec::random_spec`).
+//!
+//! No verdict (counted as `unspecified/...`): a weak reference serialised before its
+//! strong target, a cycle closed through the non-recursive weak wrappers, a dangling
+//! `RcRecursion`/`ArcRecursion` — `Err` and the correct topology are both accepted
+//! there, a silently different graph is a violation.
+
+mod fam;
+mod payload;
+mod spec;
+
+use fam::Canon;
+use serde_json::json;
+use spec::{GenParams, Spec};
+use std::cell::Cell;
+use std::rc::Rc;
+use vcore::obs::{catch, panic_site};
+use vcore::reftree::{RawKind, raw_events};
+use vcore::rng::{Rng, fnv_parts};
+use vcore::run::{Finish, Run, Tier, par_range};
+
+/// Cases whose alias-free expansion has more events than this are not read back
+/// (every alias replays its whole target): counted, no verdict.
+const MAX_EXPANDED_EVENTS: u64 = 100_000;
+
+/// Serializer option variants. `compact_list_indent` is deliberately absent: with it
+/// an empty sequence that follows a block sequence is emitted as `key:\n[]` at the
+/// key's own indentation, which no parser accepts — with or without anchors, so it
+/// is a layout defect (C13/C20), not a C14 observation.
+pub const N_SER_OPTS: usize = 5;
+
+fn anchor_name(i: usize) -> String {
+    format!("N{i}x")
+}
+
+#[allow(deprecated)]
+pub fn ser_opts(v: usize) -> serde_saphyr::SerializerOptions {
+    let mut o = serde_saphyr::SerializerOptions::default();
+    match v {
+        1 => o.indent_step = 4,
+        2 => o.quote_all = true,
+        3 => o.anchor_generator = Some(anchor_name),
+        4 => o.tagged_enums = true,
+        _ => {}
+    }
+    o
+}
+
+/// What the raw parser sees in the emitted text.
+pub struct EvInfo {
+    pub defs: usize,
+    pub aliases: usize,
+    /// anchor ids renumbered by first appearance, one entry per definition or alias, in document order
+    pub seq: Vec<u32>,
+    /// events of the alias-free expansion (alias to a closed anchor = its size, to an open one = 1)
+    pub expanded: u64,
+    pub cyclic: bool,
+    pub docs: usize,
+    /// renumbered labels of anchors that no alias refers to
+    pub unreferenced: Vec<u32>,
+    /// (label, labels of the anchored nodes that enclose its definition)
+    pub enclosing: Vec<(u32, Vec<u32>)>,
+    /// the event stream with positions and anchor ids removed (`&`/`*` + renumbered label kept)
+    pub skeleton: Vec<String>,
+}
+
+impl EvInfo {
+    /// The skeleton this stream would have without the anchors in `drop` (labels
+    /// renumbered by first appearance among the remaining ones).
+    pub fn skeleton_without(&self, drop: &[u32]) -> Vec<String> {
+        let mut renum: std::collections::HashMap<u32, u32> = std::collections::HashMap::new();
+        self.skeleton
+            .iter()
+            .map(|s| {
+                let Some((head, lab)) = s.rsplit_once(['&', '*']) else {
+                    return s.clone();
+                };
+                let Ok(l) = lab.parse::<u32>() else {
+                    return s.clone();
+                };
+                let mark = &s[head.len()..head.len() + 1];
+                if drop.contains(&l) {
+                    return head.to_string();
+                }
+                let n = renum.len() as u32;
+                let l2 = *renum.entry(l).or_insert(n);
+                format!("{head}{mark}{l2}")
+            })
+            .collect()
+    }
+}
+
+pub fn analyse_events(text: &str) -> Result<EvInfo, String> {
+    let (evs, err) = raw_events(text);
+    if let Some(e) = err {
+        return Err(format!("scan error: {} at line {} col {}", e.info, e.line, e.col));
+    }
+    let mut info =
+        EvInfo { defs: 0, aliases: 0, seq: Vec::new(), expanded: 0, cyclic: false, docs: 0, unreferenced: Vec::new(), enclosing: Vec::new(), skeleton: Vec::new() };
+    let mut open_labels: Vec<Option<u32>> = Vec::new();
+    let mut alias_count: std::collections::HashMap<u32, u32> = std::collections::HashMap::new();
+    let mut renum: std::collections::HashMap<usize, u32> = std::collections::HashMap::new();
+    let mut size: std::collections::HashMap<usize, u64> = std::collections::HashMap::new();
+    let mut stack: Vec<(usize, u64)> = Vec::new();
+    let mut defined: std::collections::HashSet<usize> = std::collections::HashSet::new();
+    let mut count: u64 = 0;
+    let mut see = |info: &mut EvInfo, id: usize| -> u32 {
+        let n = renum.len() as u32;
+        let l = *renum.entry(id).or_insert(n);
+        info.seq.push(l);
+        l
+    };
+    for e in &evs {
+        match &e.kind {
+            RawKind::DocStart(_) => info.docs += 1,
+            RawKind::Scalar { anchor, value, style, tag } => {
+                count += 1;
+                let mut sk = format!("={value:?}{}{}", vcore::reftree::style_char(*style), tag.as_deref().unwrap_or(""));
+                if *anchor != 0 {
+                    if !defined.insert(*anchor) {
+                        return Err(format!("anchor id {anchor} defined twice"));
+                    }
+                    info.defs += 1;
+                    let l = see(&mut info, *anchor);
+                    sk.push_str(&format!("&{l}"));
+                    info.enclosing.push((l, open_labels.iter().flatten().copied().collect()));
+                    size.insert(*anchor, 1);
+                }
+                info.skeleton.push(sk);
+            }
+            RawKind::SeqStart { anchor, tag } | RawKind::MapStart { anchor, tag } => {
+                count += 1;
+                let mut sk = format!("{}{}", if matches!(e.kind, RawKind::SeqStart { .. }) { "[" } else { "{" }, tag.as_deref().unwrap_or(""));
+                if *anchor != 0 {
+                    if !defined.insert(*anchor) {
+                        return Err(format!("anchor id {anchor} defined twice"));
+                    }
+                    info.defs += 1;
+                    let l = see(&mut info, *anchor);
+                    sk.push_str(&format!("&{l}"));
+                    info.enclosing.push((l, open_labels.iter().flatten().copied().collect()));
+                    open_labels.push(Some(l));
+                } else {
+                    open_labels.push(None);
+                }
+                info.skeleton.push(sk);
+                stack.push((*anchor, count - 1));
+            }
+            RawKind::SeqEnd | RawKind::MapEnd => {
+                count += 1;
+                info.skeleton.push("end".into());
+                open_labels.pop();
+                if let Some((a, start)) = stack.pop()
+                    && a != 0
+                {
+                    size.insert(a, count - start);
+                }
+            }
+            RawKind::Alias(id) => {
+                info.aliases += 1;
+                if !defined.contains(id) {
+                    return Err(format!("alias to anchor id {id} before its definition"));
+                }
+                let l = see(&mut info, *id);
+                *alias_count.entry(l).or_insert(0) += 1;
+                info.skeleton.push(format!("alias*{l}"));
+                match size.get(id) {
+                    Some(s) => count = count.saturating_add(*s),
+                    None => {
+                        count += 1;
+                        info.cyclic = true;
+                    }
+                }
+            }
+            _ => {}
+        }
+    }
+    info.expanded = count;
+    info.unreferenced = (0..renum.len() as u32).filter(|l| !alias_count.contains_key(l)).collect();
+    Ok(info)
+}
+
+// ---- cheap per-thread counters (merged into the run at the end; `Run::count` takes a
+// global lock and allocates, which is too slow for millions of tiny cases)
+type CounterMap = std::collections::HashMap<&'static str, (u64, u64)>;
+static REGISTRY: std::sync::Mutex<Vec<std::sync::Arc<std::sync::Mutex<CounterMap>>>> = std::sync::Mutex::new(Vec::new());
+thread_local! {
+    // one map per worker thread, registered globally so that nothing depends on
+    // thread-local destructors having run when the totals are read
+    static LOCAL: std::sync::Arc<std::sync::Mutex<CounterMap>> = {
+        let a = std::sync::Arc::new(std::sync::Mutex::new(CounterMap::new()));
+        REGISTRY.lock().unwrap().push(a.clone());
+        a
+    };
+}
+fn cnt(k: &'static str, n: u64) {
+    LOCAL.with(|l| l.lock().unwrap().entry(k).or_insert((0, 0)).0 += n);
+}
+fn mx(k: &'static str, v: u64) {
+    LOCAL.with(|l| {
+        let mut b = l.lock().unwrap();
+        let e = b.entry(k).or_insert((0, 0));
+        e.1 = e.1.max(v);
+    });
+}
+fn flush_counters(run: &Run) {
+    let mut total: std::collections::BTreeMap<&'static str, (u64, u64)> = std::collections::BTreeMap::new();
+    for m in REGISTRY.lock().unwrap().iter() {
+        for (k, (sum, m)) in m.lock().unwrap().iter() {
+            let e = total.entry(k).or_insert((0, 0));
+            e.0 += *sum;
+            e.1 = e.1.max(*m);
+        }
+    }
+    for (k, (sum, m)) in total.iter() {
+        if let Some(name) = k.strip_prefix("max/") {
+            run.max(name, *m);
+        } else {
+            run.count(k, *sum);
+        }
+    }
+}
+fn unspecified_key(u: &str, ok: bool) -> &'static str {
+    match (u, ok) {
+        ("weak-before-strong", false) => "unspecified/weak-before-strong:err",
+        ("weak-before-strong", true) => "unspecified/weak-before-strong:ok-correct-topology",
+        ("cycle-through-non-recursive-weak", false) => "unspecified/cycle-through-non-recursive-weak:err",
+        ("cycle-through-non-recursive-weak", true) => "unspecified/cycle-through-non-recursive-weak:ok-correct-topology",
+        ("dangling-recursion-wrapper", false) => "unspecified/dangling-recursion-wrapper:err",
+        _ => "unspecified/dangling-recursion-wrapper:ok-correct-topology",
+    }
+}
+
+/// Does the error point at a plain `null` scalar in `text`?
+fn error_points_at_null(e: &serde_saphyr::Error, text: &str) -> bool {
+    match vcore::errs::line_col(e) {
+        Some((line, col)) if line >= 1 && col >= 1 => text
+            .lines()
+            .nth(line as usize - 1)
+            .map(|l| l.chars().skip(col as usize - 1).collect::<String>())
+            .is_some_and(|rest| rest == "null" || rest.starts_with("null ")),
+        _ => false,
+    }
+}
+
+/// Pump counters from the hook trace (evidence only).
+#[derive(Default)]
+struct Pumps {
+    parser: Cell<u64>,
+    replay: Cell<u64>,
+    synth: Cell<u64>,
+    alias_push: Cell<u64>,
+}
+
+/// Remove every `&a<k>` whose anchor is never aliased; confirmed against the raw
+/// parser (same event stream minus those anchors), else `None`.
+fn strip_unreferenced(text: &str, ev: &EvInfo) -> Option<String> {
+    let mut out = text.to_string();
+    for l in &ev.unreferenced {
+        let name = format!("&a{}", l + 1);
+        // an anchor token follows "- " or ": " and is followed by a blank or a line break
+        let mut found = None;
+        let mut from = 0;
+        while let Some(i) = out[from..].find(&name) {
+            let at = from + i;
+            let before_ok = at >= 1 && out.as_bytes()[at - 1] == b' ';
+            let after = out.as_bytes().get(at + name.len()).copied();
+            if before_ok && matches!(after, Some(b' ') | Some(b'\n')) {
+                if found.is_some() {
+                    return None; // ambiguous
+                }
+                found = Some(at);
+            }
+            from = at + name.len();
+        }
+        let at = found?;
+        let end = at + name.len() + usize::from(out.as_bytes().get(at + name.len()) == Some(&b' '));
+        out.replace_range(at..end, "");
+    }
+    let ev2 = analyse_events(&out).ok()?;
+    if ev2.skeleton != ev.skeleton_without(&ev.unreferenced) {
+        return None;
+    }
+    Some(out)
+}
+
+fn first_diff(a: &str, b: &str) -> String {
+    let ta: Vec<&str> = a.split(' ').collect();
+    let tb: Vec<&str> = b.split(' ').collect();
+    let k = ta.iter().zip(tb.iter()).take_while(|(x, y)| x == y).count();
+    let ctx = |t: &[&str]| t[k.saturating_sub(6)..(k + 4).min(t.len())].join(" ");
+    format!("first difference at token {k}: before `{}` | after `{}`", ctx(&ta), ctx(&tb))
+}
+
+struct CaseCtx<'a> {
+    run: &'a Run,
+    spec: &'a Spec,
+    so: usize,
+}
+
+macro_rules! family_check {
+    ($fname:ident, $m:ident, $label:expr, $rec:expr, $weakname:expr) => {
+        fn $fname(cx: &CaseCtx) {
+            let run = cx.run;
+            let spec = cx.spec;
+            let so = cx.so;
+            let case = || json!({"suite": "graph", "family": $label, "ser_opts": so, "spec": spec});
+            if !spec.valid($rec) {
+                run.inconclusive("generator: spec not valid for this family");
+                return;
+            }
+            // ---- build + canonical labelling of the original
+            let built = catch(|| {
+                let d = fam::$m::build(spec);
+                let c = fam::$m::canon(&d);
+                (d, c)
+            });
+            let (doc, c0) = match built {
+                Ok(x) => x,
+                Err(p) => {
+                    run.inconclusive(&format!("harness: build panicked at {}", panic_site(&p)));
+                    return;
+                }
+            };
+            if c0.unresolved_weak() > 0 {
+                run.inconclusive("generator: live weak target not strongly reachable from the document");
+                return;
+            }
+            if c0.strong_cycles > 0 || c0.uninit > 0 {
+                run.inconclusive("generator: strong cycle or uninitialised node in the original");
+                return;
+            }
+            let mut unspecified: Vec<&'static str> = Vec::new();
+            if c0.weak_before_strong > 0 {
+                unspecified.push("weak-before-strong");
+            }
+            if !$rec && c0.back_edges > 0 {
+                unspecified.push("cycle-through-non-recursive-weak");
+            }
+            if $rec && c0.weak_dangling > 0 {
+                unspecified.push("dangling-recursion-wrapper");
+            }
+            let has_cycle = spec.has_cycle();
+
+            // ---- serialise
+            if $label == "arcrec" && c0.weak_before_strong > 0 && spec.strong_reference_to_open_definition() {
+                // Not executed: `ArcRecursive::serialize` takes the node's mutex before it knows that
+                // only an alias will be written, and an outer frame of the same to_string call
+                // (the definition emitted through an `ArcRecursion`) still holds it -> the thread
+                // blocks forever. Predicted from the serialisation-order model, never timed.
+                run.violation(
+                    "C14:arcrec:serialize-relocks-mutex-held-by-open-definition",
+                    case(),
+                    "to_string would deadlock: a strong ArcRecursive reference is reached while the definition of its target is being written (through an ArcRecursion met before the strong owner); ser.rs `impl Serialize for ArcRecursive` locks unconditionally",
+                );
+                return;
+            }
+            run.eval();
+            let text = match catch(|| serde_saphyr::to_string_with_options(&doc, ser_opts(so))) {
+                Err(p) => {
+                    run.violation(&format!("C14:panic:{}", panic_site(&p)), case(), p);
+                    return;
+                }
+                Ok(Err(e)) => {
+                    run.violation(&format!("C14:serialize-err:{}", $label), case(), format!("to_string failed: {e}"));
+                    return;
+                }
+                Ok(Ok(t)) => t,
+            };
+            let dangling_glued = c0.dangling_in_map_value > 0 && text.contains(":null\n");
+
+            // ---- the emitted event stream: one definition per allocation, aliases elsewhere
+            let ev = match analyse_events(&text) {
+                Ok(ev) => ev,
+                Err(why) => {
+                    let sig = if dangling_glued {
+                        "C14:dangling-weak:map-value-emitted-without-space".to_string()
+                    } else {
+                        format!("C14:emit:unparsable:{}", $label)
+                    };
+                    run.violation(&sig, case(), format!("emitted text rejected by the raw parser ({why}):\n{text}"));
+                    return;
+                }
+            };
+            let mut emit_ok = true;
+            if ev.docs != 1 {
+                emit_ok = false;
+                run.violation("C14:emit:not-one-document", case(), format!("{} documents emitted:\n{text}", ev.docs));
+            } else if ev.defs != c0.classes() {
+                emit_ok = false;
+                let sig = if dangling_glued {
+                    "C14:dangling-weak:map-value-emitted-without-space".to_string()
+                } else {
+                    format!("C14:emit:definitions-ne-allocations:{}", $label)
+                };
+                run.violation(
+                    &sig,
+                    case(),
+                    format!("{} anchor definitions for {} allocations reached through wrappers:\n{text}", ev.defs, c0.classes()),
+                );
+            } else if ev.aliases != c0.live_refs() - c0.classes() {
+                emit_ok = false;
+                run.violation(
+                    &format!("C14:emit:aliases-ne-repeated-references:{}", $label),
+                    case(),
+                    format!("{} aliases for {} repeated references:\n{text}", ev.aliases, c0.live_refs() - c0.classes()),
+                );
+            } else if c0.weak_before_strong == 0 && ev.seq != c0.refs {
+                emit_ok = false;
+                run.violation(
+                    &format!("C14:emit:reference-sequence:{}", $label),
+                    case(),
+                    format!("definition/alias sequence {:?} differs from reference sequence {:?}:\n{text}", ev.seq, c0.refs),
+                );
+            }
+            if !emit_ok {
+                return;
+            }
+            cnt("events/anchor_definitions", ev.defs as u64);
+            cnt("events/aliases", ev.aliases as u64);
+            mx("max/events/max_expanded", ev.expanded);
+            if ev.cyclic != (c0.back_edges > 0) && c0.weak_before_strong == 0 {
+                run.inconclusive("model: cyclic alias in text disagrees with back edges of the original");
+                return;
+            }
+            if ev.expanded > MAX_EXPANDED_EVENTS {
+                cnt("skipped/expansion-too-large", 1);
+                return;
+            }
+
+            // ---- read back into the wrapper types
+            run.eval();
+            let pumps = Rc::new(Pumps::default());
+            let p2 = pumps.clone();
+            let r = vcore::hooks::monitored(
+                move |e| {
+                    use serde_saphyr::verif::{Source, VerifEvent};
+                    match e {
+                        VerifEvent::Pump { source: Source::Parser, .. } => p2.parser.set(p2.parser.get() + 1),
+                        VerifEvent::Pump { source: Source::Replay, .. } => p2.replay.set(p2.replay.get() + 1),
+                        VerifEvent::Pump { source: Source::Synth, .. } => p2.synth.set(p2.synth.get() + 1),
+                        VerifEvent::AliasPush { .. } => p2.alias_push.set(p2.alias_push.get() + 1),
+                        _ => {}
+                    }
+                },
+                || catch(|| serde_saphyr::from_str_with_options::<fam::$m::Doc>(&text, vcore::errs::unlimited_options())),
+            );
+            cnt("hook/pumps_parser", pumps.parser.get());
+            cnt("hook/pumps_replay", pumps.replay.get());
+            cnt("hook/pumps_synth_placeholder", pumps.synth.get());
+            cnt("hook/alias_pushes", pumps.alias_push.get());
+            let mut verdict_ok = true;
+            match r {
+                Err(p) => {
+                    run.violation(&format!("C14:panic:{}", panic_site(&p)), case(), p);
+                    return;
+                }
+                Ok(Err(e)) => {
+                    let msg = e.to_string();
+                    let kind = vcore::errs::kind(&e);
+                    if !unspecified.is_empty() {
+                        for u in &unspecified {
+                            cnt(unspecified_key(u, false), 1);
+                        }
+                        run.observe("unspecified_error_kinds", &kind);
+                        verdict_ok = false;
+                    } else {
+                        let sig = if dangling_glued {
+                            "C14:dangling-weak:map-value-emitted-without-space".to_string()
+                        } else if c0.weak_dangling > 0 && kind == "Message" && msg.contains("weak") && error_points_at_null(&e, &text) {
+                            // the `null` written for a dropped target is refused by the weak wrapper
+                            format!("C14:dangling-weak:null-rejected:{}", $weakname)
+                        } else {
+                            format!("C14:roundtrip-err:{}:{}", $label, kind)
+                        };
+                        run.violation(&sig, case(), format!("from_str failed: {msg}\ntext:\n{text}"));
+                        return;
+                    }
+                }
+                Ok(Ok(d2)) => {
+                    let c1 = match catch(|| fam::$m::canon(&d2)) {
+                        Ok(c) => c,
+                        Err(p) => {
+                            run.violation(
+                                &format!("C14:readback-graph-unwalkable:{}", $label),
+                                case(),
+                                format!("walking the deserialised graph panicked: {p}\ntext:\n{text}"),
+                            );
+                            return;
+                        }
+                    };
+                    if c1.out != c0.out {
+                        let what = if c1.uninit > 0 {
+                            "uninitialised-placeholder"
+                        } else if c1.shape != c0.shape {
+                            "tree-shape"
+                        } else {
+                            "pointer-identity"
+                        };
+                        let sig = if dangling_glued {
+                            "C14:dangling-weak:map-value-emitted-without-space".to_string()
+                        } else if let Some(u) = unspecified.first() {
+                            format!("C14:{u}:silently-different:{what}")
+                        } else {
+                            format!("C14:roundtrip-mismatch:{}:{what}", $label)
+                        };
+                        run.violation(&sig, case(), format!("{}\ntext:\n{text}", first_diff(&c0.out, &c1.out)));
+                        return;
+                    }
+                    for u in &unspecified {
+                        cnt(unspecified_key(u, true), 1);
+                    }
+                    cnt("roundtrip_ok", 1);
+                }
+            }
+
+            // ---- mirror type with plain fields: equal values, independent copies
+            if !has_cycle && !ev.cyclic {
+                run.eval();
+                let expected = match catch(|| fam::plain::expand(spec)) {
+                    Ok(x) => x,
+                    Err(p) => {
+                        run.inconclusive(&format!("harness: plain expansion panicked at {}", panic_site(&p)));
+                        return;
+                    }
+                };
+                match catch(|| serde_saphyr::from_str_with_options::<fam::plain::Doc>(&text, vcore::errs::unlimited_options())) {
+                    Err(p) => {
+                        run.violation(&format!("C14:panic:{}", panic_site(&p)), case(), p);
+                        return;
+                    }
+                    Ok(Err(e)) => {
+                        let sig = if dangling_glued {
+                            "C14:dangling-weak:map-value-emitted-without-space".to_string()
+                        } else {
+                            format!("C14:mirror-err:{}:{}", $label, vcore::errs::kind(&e))
+                        };
+                        run.violation(&sig, case(), format!("plain mirror type failed: {e}\ntext:\n{text}"));
+                        return;
+                    }
+                    Ok(Ok(got)) => {
+                        if got != expected {
+                            let sig = if dangling_glued {
+                                "C14:dangling-weak:map-value-emitted-without-space".to_string()
+                            } else {
+                                format!("C14:mirror-mismatch:{}", $label)
+                            };
+                            let (a, b) = (fam::plain::canon(&expected), fam::plain::canon(&got));
+                            run.violation(
+                                &sig,
+                                case(),
+                                format!("plain mirror differs from the expansion: {}\ntext:\n{text}", first_diff(&a.shape, &b.shape)),
+                            );
+                            return;
+                        }
+                        cnt("mirror_ok", 1);
+                    }
+                }
+            } else {
+                cnt("mirror_skipped_cyclic", 1);
+            }
+
+            // ---- the same document without the anchors nobody refers to (what a person would write):
+            // same graph. Default anchor names only (the k-th definition in the text is `&a<k>`).
+            if unspecified.is_empty() && so != 3 && !ev.unreferenced.is_empty() {
+                // the known way this goes wrong: a wrapper node without an anchor inside a wrapper node
+                // that keeps its anchor is given the enclosing node's anchor id
+                let nested_unanchored = ev
+                    .enclosing
+                    .iter()
+                    .any(|(l, encl)| ev.unreferenced.contains(l) && encl.iter().any(|k| !ev.unreferenced.contains(k)));
+                match strip_unreferenced(&text, &ev) {
+                    None => run.inconclusive("generator: removing unreferenced anchors did not give the intended event stream"),
+                    Some(stripped) => {
+                        run.eval();
+                        match catch(|| serde_saphyr::from_str_with_options::<fam::$m::Doc>(&stripped, vcore::errs::unlimited_options())) {
+                            Err(p) => {
+                                run.violation(&format!("C14:panic:{}", panic_site(&p)), case(), p);
+                                return;
+                            }
+                            Ok(Err(e)) => {
+                                let sig = if nested_unanchored {
+                                    "C14:unanchored-wrapper-nested-in-anchored-wrapper".to_string()
+                                } else {
+                                    format!("C14:unreferenced-anchors-removed:{}:err:{}", $label, vcore::errs::kind(&e))
+                                };
+                                run.violation(
+                                    &sig,
+                                    case(),
+                                    format!("the document without its {} unreferenced anchors fails: {e}\ntext:\n{stripped}", ev.unreferenced.len()),
+                                );
+                                return;
+                            }
+                            Ok(Ok(d3)) => match catch(|| fam::$m::canon(&d3)) {
+                                Err(p) => {
+                                    run.violation(
+                                        &format!("C14:readback-graph-unwalkable:{}", $label),
+                                        case(),
+                                        format!("walking the graph read from the stripped text panicked: {p}\ntext:\n{stripped}"),
+                                    );
+                                    return;
+                                }
+                                Ok(c3) => {
+                                    if c3.out != c0.out {
+                                        let what = if c3.shape != c0.shape { "tree-shape" } else { "pointer-identity" };
+                                        let sig = if nested_unanchored {
+                                            "C14:unanchored-wrapper-nested-in-anchored-wrapper".to_string()
+                                        } else {
+                                            format!("C14:unreferenced-anchors-removed:{}:{what}", $label)
+                                        };
+                                        run.violation(
+                                            &sig,
+                                            case(),
+                                            format!(
+                                                "the document without its {} unreferenced anchors reads back differently: {}\ntext:\n{stripped}",
+                                                ev.unreferenced.len(),
+                                                first_diff(&c0.out, &c3.out)
+                                            ),
+                                        );
+                                        return;
+                                    }
+                                    cnt("stripped_roundtrip_ok", 1);
+                                    cnt("stripped/anchors_removed", ev.unreferenced.len() as u64);
+                                }
+                            },
+                        }
+                    }
+                }
+            }
+
+            // ---- evidence
+            cnt(concat!("cases/", $label), 1);
+            if verdict_ok && c0.nontrivial() {
+                let sj = serde_json::to_string(spec).unwrap_or_default();
+                run.nontrivial(fnv_parts(&[sj.as_bytes(), $label.as_bytes(), &[so as u8]]));
+            }
+            cnt("graph/allocations", c0.classes() as u64);
+            cnt("graph/classes_with_2+_members", c0.shared_classes() as u64);
+            cnt("graph/classes_with_2+_strong_members", c0.strong_shared_classes() as u64);
+            cnt("graph/weak_live", c0.weak_live() as u64);
+            cnt("graph/weak_dangling", c0.weak_dangling as u64);
+            cnt("graph/cycle_back_edges", c0.back_edges as u64);
+            if c0.back_edges > 0 {
+                cnt("graph/cases_with_cycle", 1);
+            }
+            mx("max/graph/max_allocations", c0.classes() as u64);
+            mx("max/graph/max_class_size", c0.per_label.iter().map(|(s, w)| (s + w) as u64).max().unwrap_or(0));
+        }
+    };
+}
+
+family_check!(check_rc, rc, "rc", false, "RcWeakAnchor");
+family_check!(check_arc, arc, "arc", false, "ArcWeakAnchor");
+family_check!(check_rcrec, rcrec, "rcrec", true, "RcRecursion");
+family_check!(check_arcrec, arcrec, "arcrec", true, "ArcRecursion");
+
+pub const FAMILIES: &[&str] = &["rc", "arc", "rcrec", "arcrec"];
+
+fn is_rec(f: &str) -> bool {
+    f.ends_with("rec")
+}
+
+fn check_case(run: &Run, family: &str, spec: &Spec, so: usize) {
+    let cx = CaseCtx { run, spec, so };
+    match family {
+        "rc" => check_rc(&cx),
+        "arc" => check_arc(&cx),
+        "rcrec" => check_rcrec(&cx),
+        _ => check_arcrec(&cx),
+    }
+}
+
+#[allow(dead_code)]
+fn unused(_: &Canon) {}
+
+fn main() {
+    let run = Run::from_args("C14");
+    if let Some(rep) = run.is_replay() {
+        let case = rep["case"].clone();
+        match case["suite"].as_str() {
+            Some("payload") => {
+                let f = payload::Filter {
+                    kind: case["kind"].as_str().unwrap_or("").to_string(),
+                    ctx: case["ctx"].as_str().unwrap_or("").to_string(),
+                    family: case["family"].as_str().unwrap_or("").to_string(),
+                };
+                payload::run_suite(&run, Some(&f));
+            }
+            _ => {
+                let spec: Spec = match serde_json::from_value(case["spec"].clone()) {
+                    Ok(s) => s,
+                    Err(e) => {
+                        eprintln!("harness error: replay file has no usable spec: {e}");
+                        std::process::exit(2);
+                    }
+                };
+                let fam = case["family"].as_str().unwrap_or("rc").to_string();
+                let so = case["ser_opts"].as_u64().unwrap_or(0) as usize;
+                check_case(&run, &fam, &spec, so);
+            }
+        }
+        run.finish(Finish::new("replay"));
+    }
+    let tier = run.tier;
+    // debugging aid: VERIF_C14_PARTS=payload,exh,random restricts the run to some parts
+    let parts = std::env::var("VERIF_C14_PARTS").unwrap_or_else(|_| "payload,exh,random".into());
+    let part = |p: &str| parts.split(',').any(|x| x == p);
+
+    // ---- payload kinds x contexts (fixed finite list)
+    if part("payload") {
+        payload::run_suite(&run, None);
+    }
+
+    // ---- exhaustive small graphs
+    // both tiers: n <= 3 with at most one weak edge and n = 4 with strong edges only over the 7-way alphabet;
+    // thorough adds n = 4 with at most one weak edge over the 4-way alphabet
+    let mut exh: Vec<(usize, bool, usize)> =
+        vec![(1, true, spec::PAIR_OPTIONS), (2, true, spec::PAIR_OPTIONS), (3, true, spec::PAIR_OPTIONS), (4, false, spec::PAIR_OPTIONS)];
+    if tier == Tier::Thorough {
+        exh.push((4, true, spec::PAIR_OPTIONS_SMALL));
+    }
+    for &(n, with_weak, po) in &exh {
+        if !part("exh") {
+            break;
+        }
+        let size = spec::exhaustive_size(n, with_weak, po);
+        for fam in FAMILIES {
+            let rec = is_rec(fam);
+            par_range(size, |idx| match spec::exhaustive_spec(n, with_weak, po, rec, idx) {
+                None => {}
+                Some(s) => {
+                    check_case(&run, fam, &s, 0);
+                    if idx % 50_021 == 7 {
+                        run.sample(|| json!({"family": fam, "spec": s}));
+                    }
+                }
+            });
+        }
+        run.count(&format!("exhaustive/index_space_n{n}_weak{}_alphabet{po}", with_weak as u8), (size * FAMILIES.len()) as u64);
+    }
+
+    // ---- seeded random graphs, sharing probability swept 0..1
+    let n_random = if part("random") {
+        std::env::var("VERIF_C14_RANDOM_N").ok().and_then(|v| v.parse().ok()).unwrap_or(tier.pick(80_000, 1_200_000))
+    } else {
+        0
+    };
+    par_range(n_random, |i| {
+        let mut rng = Rng::stream(run.seed, i as u64);
+        let fam = FAMILIES[i % 4];
+        let rec = is_rec(fam);
+        let share_pct = ((i / 4) % 11) * 10;
+        let p = GenParams {
+            n: if rng.chance(1, 5) { rng.range(1, 6) } else { rng.range(2, 40) },
+            share_pct,
+            rec,
+            weak_pct: *rng.pick(&[0usize, 10, 30, 60, 100]),
+            dangle_pct: if rng.chance(1, 6) { 25 } else { 0 },
+            allow_early: rng.chance(1, 6),
+            max_expansion: 6_000,
+        };
+        let s = spec::random_spec(&mut rng, &p);
+        let so = if rng.chance(1, 2) { 0 } else { rng.below(N_SER_OPTS) };
+        cnt(
+            [
+                "random/share_pct_000",
+                "random/share_pct_010",
+                "random/share_pct_020",
+                "random/share_pct_030",
+                "random/share_pct_040",
+                "random/share_pct_050",
+                "random/share_pct_060",
+                "random/share_pct_070",
+                "random/share_pct_080",
+                "random/share_pct_090",
+                "random/share_pct_100",
+            ][share_pct / 10],
+            1,
+        );
+        check_case(&run, fam, &s, so);
+        if i % 2_003 == 5 {
+            run.sample(|| json!({"family": fam, "ser_opts": so, "spec": s}));
+        }
+    });
+
+    flush_counters(&run);
+    let scope = format!(
+        "for each family in {{rc, arc, rcrec, arcrec}}: (a) every graph on n <= 3 nodes in which each ordered pair i<j is linked in one of 7 ways \
+         (none | kids | one | named map | inner.list | choice::Ref | kids+named), parentless nodes listed in Doc.roots after or before node 0, \
+         with at most one weak edge (source node, slot wfirst|weak, target any buildable node, itself, or dangling); (b) the same for n = 4 \
+         without weak edges{}; combinations that use a single-value slot twice are skipped. Plus the fixed payload-kind x context list (payload.rs).",
+        if tier == Tier::Thorough { "; (c) n = 4 with at most one weak edge over the 4-way alphabet (none | kids | one | named map)" } else { "" },
+    );
+    let fin = Finish::new(
+        "a case is non-trivial when the canonical walk of the original graph found >= 1 allocation referenced >= 2 times, or >= 1 weak edge \
+         (live or dangling), or a cycle back edge, and the case got a verdict; distinct by hash(spec, family, serializer option variant)",
+    )
+    .exhaustive(scope)
+    .assume("the raw saphyr-parser event stream is the ground truth for anchors/aliases in the emitted text")
+    .assume("budget and alias limits switched off for reading back; graphs whose alias-free expansion exceeds 100k events are skipped")
+    .assume("unspecified (Err or correct topology both accepted): weak serialised before its strong target, cycles through the non-recursive weak wrappers, dangling RcRecursion/ArcRecursion")
+    .min_nontrivial(if tier == Tier::Quick { 5_000 } else { 50_000 });
+    run.finish(fin);
+}
